@@ -36,6 +36,10 @@ let handle (toks: string list) : string =
       id ^ " " ^ hex_of_bytes (encode53 (n_of_int (int_of_string seed)) (hexarg hex))
   | "dec53" :: id :: seed :: verify :: hex :: [] ->
       id ^ " " ^ show_outcome (decode53 (n_of_int (int_of_string seed)) (n_of_int (int_of_string verify)) (hexarg hex))
+  | "pasenc" :: id :: hex :: [] ->
+      id ^ " " ^ (match pas_encode (hexarg hex) with Some l -> "ok:" ^ hex_of_bytes l | None -> "none")
+  | "pasdec" :: id :: hex :: [] ->
+      id ^ " ok:" ^ hex_of_bytes (pas_decode (hexarg hex))
   | "enc35" :: id :: hex :: [] ->
       id ^ " " ^ hex_of_bytes (sony_encode (hexarg hex))
   | "dec35" :: id :: hex :: [] ->
